@@ -87,7 +87,7 @@ CELL_VALUES = {
     # (new value, new physical dtype or None to keep)
     "int64": [(0, None), (2, None), (4, None), (-2, None), (None, "float64"), ("q", "object")],
     "float64": [(0.5, None), (2.5, None), (None, None)],
-    "object": [("x", None), ("", None), (None, None), ("xz", None), (5, None), (" x ", None)],
+    "object": [("x", None), ("", None), (None, None), ("xz", None), (5, None), (" x ", None), ("\u00e9", None)],   # é: 1 character, 2 bytes
 }
 
 
@@ -253,6 +253,8 @@ def data_edits(table, rich=True):
     if ix is None:
         eds.append(["index", {"kind": "single", "values": ["r%d" % i for i in range(n)], "dtype": "object", "name": None}])
         eds.append(["index", {"kind": "single", "values": [7] * max(n - 1, 0) + [8] * min(n, 1), "dtype": "int64", "name": None}])
+        # a RangeIndex whose labels are not the row positions (what df.iloc[k:] or df[::2] leave behind)
+        eds.append(["index", {"kind": "single", "values": [5 + 2 * i for i in range(n)], "dtype": "int64", "name": None, "range": [5, 2]}])
         if rich:
             eds.append(["index", {"kind": "single", "values": list(range(n))[::-1], "dtype": "int64", "name": "idx"}])
             eds.append(["index", {"kind": "multi", "levels": [{"values": ["p", "q", "r"][:n], "dtype": "object", "name": "k1"},
@@ -382,6 +384,8 @@ def apply_data_edit(table, e):
         if ix is not None:
             vecs = [ix] if ix["kind"] == "single" else ix["levels"]
             for v in vecs:
+                if v.get("range") and len(v["values"]) != n:
+                    v["values"] = [v["range"][0] + i * v["range"][1] for i in range(n)]
                 if len(v["values"]) != n:
                     # re-fit to the current length
                     base = v["values"]
